@@ -97,6 +97,7 @@ def writable_library_globals(binary):
     return syms, anchor
 
 def run(chk):
+    chk.auto_custom_sha = False      # this check drives its own contexts / tours
     quick = chk.tier == "quick"
     chk.groups = ["ctx"]
     chk.build(["std"] + ([] if quick else ["verify", "noasm"]))
